@@ -47,6 +47,11 @@ CHECKS = {
             "compared before/after, plus the check/print/convert entry points on the full valid+invalid layout grammar; a signal, "
             "sanitizer report, hang, modified input or unstable result is a violation.",
             "bounded exhaustive exploration of operation histories under sanitizers (ASan/UBSan as the memory oracle)"),
+    "C14": ("model_checking", "E3", "Explicit-state search over ArrayBuilder command histories (17-command alphabet quick, 31 thorough; well- "
+            "and ill-nested; depth 5 / 6) with the reference builder's state as the state key; every transition replayed on a fresh real "
+            "ArrayBuilder under four buffer-growth settings; length, to_list(snapshot), type-as-a-function-of-state, immutability of "
+            "earlier snapshots and the position of errors are checked after every command.",
+            "explicit-state exploration of command histories with state merging, reference-model oracle stepped in lock-step"),
     "C16": ("exploration", "E4", "Every array of the type menu x encodings through to_buffers/from_buffers (form_key, key_format, raw-bytes "
             "containers, partitions), pickle, from_numpy/to_numpy over shapes x dtypes x memory layouts and masks, to_arrow/from_arrow x "
             "32-bit options; round-trip value, type and (where promised) option-ness compared by the reference layout interpreter.",
@@ -63,6 +68,10 @@ ENGINES = [
      "serves_properties": ["C04", "C16"],
      "kind_free_text": "the repository's own Python layer (/repo/src/awkward) imported unmodified on top of a pure-Python mirror of "
                        "awkward._ext that forwards every behaviour to the freshly built libawkward"},
+    {"name": "E3", "path": "checks/c14_builders.py model/refbuilder.py mirror/builder.py bridge/akb_builder.cpp",
+     "serves_properties": ["C14"],
+     "kind_free_text": "history explorer: breadth-first search over command sequences against stateful C++ objects with a reference "
+                       "model stepped in lock-step"},
     {"name": "E1", "path": "mc/e1.py mc/opalpha.py model/ checks/c0*.py checks/c11_validity.py",
      "serves_properties": sorted(k for k, v in CHECKS.items() if v[1].startswith("E1")),
      "kind_free_text": "explicit-state exploration of (physical layout, operation) transitions on the real libawkward built from /repo, "
